@@ -18,10 +18,10 @@ EXPLANATION = ("Numerical: expression trees over blank-separated + - * /, parent
                "unit equals the reference evaluator's base-value result (multiplication/division before addition/subtraction, left to right). Logical: comparisons, ~, !, ~!, && and || "
                "over numeric/boolean/string operands with symbolic numbers kept outside the 1e-6 tolerance band by precondition; z3 proves the truth value. Templates: the rendered text is "
                "compared with Python's format() on concrete values (formatting is C-level), covering each format class with width/precision and slices.")
-ASSUMPTIONS = dipkit.DIP_STUB_TEXT + ["function cases use concrete arguments (angles in deg/rad, lengths) and compare with Python's math functions at 1e-6 relative (the table value of deg is rounded)", "numerical operands are positive and denominators are subtraction-free; the result is claimed within 1e-9 of the magnitude scale (sum of the absolute additive terms), so cancellation of binary64 noise cannot raise an alarm",
-                                      "numbers compared in the generated logical trees differ by more than 1e-3 relative or are exactly equal; the band families judge ==, !=, <=, >= for values within 0.9e-6 relative (must count as equal) and between 1.2e-6 and 1e-4 relative with the compared value >= 0.1 (must count as different; numpy's absolute 1e-8 term is the library's own addition and stays inside the unjudged gap)",
+ASSUMPTIONS = dipkit.DIP_STUB_TEXT + ["a division by a term that may be zero forks; on the zero side the library's own ZeroDivisionError propagates and is reported (no denominator is assumed away)", "function cases use concrete arguments (angles in deg/rad, lengths) and compare with Python's math functions at 1e-6 relative (the table value of deg is rounded)", "numerical operands are positive and denominators are subtraction-free; the result is claimed within 1e-9 of the magnitude scale (sum of the absolute additive terms), so cancellation of binary64 noise cannot raise an alarm",
+                                      "numbers compared in the generated logical trees differ by more than 1e-3 relative or are exactly equal; the band families judge ==, !=, <=, >= for values within 0.9e-6 relative (must count as equal) and between 1.2e-6 and 1e-4 relative (must count as different; also for magnitudes between 1e-12 and 1e-7, where differences up to a factor of 1.5 are judged: the tolerance is relative only since fix 06bcf3b)",
                                       "inside the generated symbolic trees no functions occur; the documented functions are covered by the concrete 'functions' list"]
-OUTSIDE = ['comparisons of two bare literals and of an int node with a float node (the library has no data type to compare in / refuses them)', 'array operands', 'sign folding together with ** inside DIP numerical expressions', 'relative differences between 0.9e-6 and 1.2e-6 (the edge of the tolerance band, where numpy adds an absolute 1e-8)', 'strict < and > between quantities that are exactly equal after conversion (binary64 conversion noise decides; no tolerance is documented for them)']
+OUTSIDE = ['comparisons of an int node with a float node (the library refuses them)', 'comparisons between reciprocal dimensions (1 s == 1 Hz is true through the documented reciprocal conversion; not judged)', 'array operands', 'sign folding together with ** inside DIP numerical expressions', 'relative differences between 0.9e-6 and 1.2e-6 (the edge of the tolerance band)', 'strict < and > between quantities that are exactly equal after conversion (binary64 conversion noise decides; no tolerance is documented for them)']
 BOUNDS = {'quick': '150 numerical trees (<= 4 operators), 80 logical trees (<= 4 operators), 24 tolerance-band families (|d| <= 9e-7 inside, 1.2e-6 .. 1e-4 outside), 94 concrete unit ties, 34 template cases', 'thorough': '900 numerical, 500 logical, 120 band families'}
 EXHAUSTIVE = {'quick': False, 'thorough': False}
 PRE = dipkit.DIP_SRC + unitkit.REF_SRC + '''
